@@ -31,7 +31,7 @@ RULE = ("programs from the grammar built WITHOUT prior deduplication, with "
         "tag-adding ones.  non-trivial = graph has sharing, a duplicate or a "
         "dead reference and >= 3 operation nodes; distinct by (program, "
         "pipeline)")
-RULE += '  Round-4 addition: one pipeline in six carries a reshape gadget (axis groups of unequal lengths merged / split, Fortran or C order).'
+RULE += '  Round-4 addition: one pipeline in six carries a reshape gadget (axis groups of unequal lengths merged / split, Fortran or C order).  Round 5: one in eight a 4-D operand with non-contiguous / late-starting groups of advanced indices.'
 ASSUMPTIONS = [
     "a transformation that raises the documented 'cache collision' / "
     "'mapper-created duplicate' ValueError on a graph that really contains "
@@ -336,6 +336,44 @@ def add_reshape_gadget(draw, spec):
     return spec
 
 
+def add_advindex_gadget(draw, spec):
+    """a 4-D operand with advanced indices that are separated by slices and
+    do not start on axis 0 (x[:, i, :, j], x[1:, 2, :, j], ...): the result
+    axes are ordered differently from the contiguous case"""
+    layout = draw(st.sampled_from([
+        ("full", "arr", "full", "arr"), ("slice", "int", "full", "arr"),
+        ("full", "arr", "slice", "arr2"), ("arr", "full", "arr", "full"),
+        ("full", "full", "arr", "arr"), ("full", "arr", "arr", "full"),
+        ("slice", "arr", "full", "int")]))
+    shape = [2, 3, 2, 3]
+    nodes = spec["nodes"]
+    k = len(nodes)
+    nodes.append({"op": "placeholder", "p": {
+        "name": "adv_u", "shape": shape, "dtype": "float64", "scale": 0,
+        "values": [draw(st.integers(-5, 5)) + 2 * i for i in range(36)]}})
+    args = [["n", k]]
+    idx = []
+    for ax, kind in enumerate(layout):
+        n = shape[ax]
+        if kind == "full":
+            idx.append(["slice", None, None, None])
+        elif kind == "slice":
+            idx.append(["slice", 1, None, None])
+        elif kind == "int":
+            idx.append(["int", n - 1])
+        else:
+            nodes.append({"op": "placeholder", "p": {
+                "name": f"adv_i{ax}", "shape": [2] if kind == "arr" else [2, 1],
+                "dtype": "int32", "scale": 0,
+                "values": [n - 1, 0] if kind == "arr" else [0, n - 1]}})
+            args.append(["n", len(nodes) - 1])
+            idx.append(["arr", len(args) - 1])
+    nodes.append({"op": "index", "args": args, "p": {"idx": idx}})
+    nodes.append({"op": "mul", "args": [["n", len(nodes) - 1], ["py", 2]]})
+    spec["outputs"] = list(spec["outputs"]) + [["advidx", len(nodes) - 1]]
+    return spec
+
+
 def add_layout_gadget(draw, spec):
     """two data wrappers that are views of ONE buffer with the same start
     address, shape and dtype but (for kinds T / step) different strides,
@@ -436,6 +474,8 @@ def cases(draw):
         spec = add_minus_one_two_gadget(draw, spec)
     if draw(st.integers(0, 5)) == 0:
         spec = add_reshape_gadget(draw, spec)
+    if draw(st.integers(0, 7)) == 0:
+        spec = add_advindex_gadget(draw, spec)
     n = draw(st.integers(1, 4))
     pipeline = [draw(st.sampled_from(TNAMES)) for _ in range(n)]
     return {"spec": spec, "pipeline": pipeline}, vals
